@@ -2,7 +2,10 @@ package main
 
 import (
 	"fmt"
+	"go/ast"
+	"go/token"
 	"go/types"
+	"golang.org/x/tools/go/packages"
 	"os"
 	"sort"
 	"strings"
@@ -108,6 +111,7 @@ type Engine struct {
 	wantWitness int
 	stopOnViolation bool
 
+	pkgInfo  map[*types.Package]*packages.Package
 	tpl      *Path
 	tplErr   string
 	tplMu    sync.Mutex
@@ -583,10 +587,11 @@ func (p *Path) globalCell(g *ssa.Global) *Cell {
 	if tpl := p.eng.tpl; tpl != nil && tpl != p {
 		// package initialisation is input-independent: it is executed once in a
 		// template path and its heap is cloned lazily into every explored path
-		p.eng.tplMu.Lock()
-		tc := tpl.globalCell(g)
-		c := p.cloneCell(tc)
-		p.eng.tplMu.Unlock()
+		c := func() *Cell {
+			p.eng.tplMu.Lock()
+			defer p.eng.tplMu.Unlock()
+			return p.cloneCell(tpl.globalCell(g))
+		}()
 		p.globals[g] = c
 		return c
 	}
@@ -637,6 +642,9 @@ func (p *Path) opaqueGlobal(g *ssa.Global) Value {
 	name := g.Pkg.Pkg.Path() + "." + g.Name()
 	if v, ok := knownGlobals[name]; ok {
 		return v(p)
+	}
+	if v, ok := p.eng.constGlobal(g); ok {
+		return v
 	}
 	switch u := t.Underlying().(type) {
 	case *types.Interface:
@@ -810,4 +818,37 @@ func (e *Engine) initTemplate(harness *ssa.Function) {
 			tp.ensureInit(harness.Pkg)
 		}
 	}()
+}
+
+
+// constGlobal evaluates a package-level `var X = <constant expression>` of an opaque
+// package from the type-checker's constant information (no init code is run).
+func (e *Engine) constGlobal(g *ssa.Global) (Value, bool) {
+	pp := e.pkgInfo[g.Pkg.Pkg]
+	if pp == nil || pp.TypesInfo == nil {
+		return nil, false
+	}
+	for _, f := range pp.Syntax {
+		for _, d := range f.Decls {
+			gd, ok := d.(*ast.GenDecl)
+			if !ok || gd.Tok != token.VAR {
+				continue
+			}
+			for _, sp := range gd.Specs {
+				vs := sp.(*ast.ValueSpec)
+				for i, n := range vs.Names {
+					if n.Name != g.Name() || i >= len(vs.Values) {
+						continue
+					}
+					tv, ok := pp.TypesInfo.Types[vs.Values[i]]
+					if !ok || tv.Value == nil {
+						return nil, false
+					}
+					c := ssa.NewConst(tv.Value, deref(g.Type()))
+					return (&Path{eng: e}).constValue(c), true
+				}
+			}
+		}
+	}
+	return nil, false
 }
